@@ -60,6 +60,14 @@ func c02Doc(family int, v string) ([]map[string]any, func()) {
 			"admin": map[string]any{"extends": ext, "hostname": "adm"},
 			"zed":   map[string]any{"extends": ext, "environment": map[string]any{"ROLE": "zed"}}}}
 		return []map[string]any{doc}, setup
+	case family == 18: // many extra_hosts entries (beyond the size where sorting switches algorithm), one host with two addresses, merged
+		hosts := map[string]any{"multi": []any{"10.0.0.9", "10.0.0.1"}}
+		for i := 0; i < 13; i++ {
+			hosts["h"+string(rune('a'+i))] = "10.0.1." + string(rune('0'+i%10))
+		}
+		base := map[string]any{"services": map[string]any{"s": map[string]any{"image": "i", "extra_hosts": hosts}}}
+		over := map[string]any{"services": map[string]any{"s": map[string]any{"extra_hosts": map[string]any{"late" + v: "10.0.2.1"}}}}
+		return []map[string]any{base, over}, setup
 	case family == 17: // default network: one explicit reference, the others implicit
 		doc := map[string]any{"services": map[string]any{
 			"a": map[string]any{"image": "i", "networks": []any{"default", "edge"}},
@@ -101,7 +109,7 @@ func c02Permute(doc map[string]any) map[string]any {
 func VerifC02Determinism() {
 	family := vrtParam("ONLYFAMILY", -1)
 	if family < 0 {
-		family = vrtChoice("family", 18)
+		family = vrtChoice("family", 19)
 	}
 	v := "x" + vrtString("v", vrtParam("VL", 1), "ab")
 	mode := []int{1, 3, 4}[vrtChoice("order", 3)]
@@ -146,4 +154,50 @@ func VerifC02Determinism() {
 	vrtAssert("same-resources#"+cls, vrtDeepEqual(any(p1.Networks), any(p2.Networks)) && vrtDeepEqual(any(p1.Volumes), any(p2.Volumes)) &&
 		vrtDeepEqual(any(p1.Secrets), any(p2.Secrets)) && vrtDeepEqual(any(p1.Configs), any(p2.Configs)))
 	vrtAssert("same-rendering#"+cls, vrtDeepEqual(any(y1), any(y2)))
+}
+
+type c02Magic struct {
+	Foo   string `yaml:"foo,omitempty" json:"foo,omitempty"`
+	Extra string `yaml:"extra,omitempty" json:"extra,omitempty"`
+}
+
+// VerifC02KnownExtension: a known extension registered once (by value or by pointer) and used by several
+// services and by several loads decodes, each time, to that occurrence's own content.
+func VerifC02KnownExtension() {
+	byPointer := vrtChoice("registeredByPointer", 2) == 1
+	known := map[string]any{"x-magic": c02Magic{}}
+	if byPointer {
+		known = map[string]any{"x-magic": &c02Magic{}}
+	}
+	foo := func(p *types.Project, svc string) (string, string, bool) {
+		switch m := p.Services[svc].Extensions["x-magic"].(type) {
+		case c02Magic:
+			return m.Foo, m.Extra, true
+		case *c02Magic:
+			if m != nil {
+				return m.Foo, m.Extra, true
+			}
+		}
+		return "", "", false
+	}
+	opts := func(o *Options) { o.KnownExtensions = known }
+	if vrtChoice("earlierLoad", 2) == 1 {
+		// another model loaded before with the same registration
+		tcLoadProject(types.Mapping{}, opts, map[string]any{"services": map[string]any{"o": map[string]any{"image": "i", "x-magic": map[string]any{"foo": "other", "extra": "only-other"}}}}) //nolint:errcheck
+	}
+	vrtMapOrder([]int{0, 3, 4}[vrtChoice("maporder", 3)])
+	p, err := tcLoadProject(types.Mapping{}, opts, map[string]any{"services": map[string]any{
+		"a": map[string]any{"image": "i", "x-magic": map[string]any{"foo": "fa"}},
+		"b": map[string]any{"image": "i", "x-magic": map[string]any{"foo": "fb", "extra": "eb"}},
+	}})
+	vrtMapOrder(0)
+	vrtObserve("err", err != nil)
+	vrtAssert("loads", err == nil)
+	if err != nil {
+		return
+	}
+	fa, ea, oka := foo(p, "a")
+	fb, eb, okb := foo(p, "b")
+	vrtAssert("known-extension-decoded", oka && okb)
+	vrtAssert("each-occurrence-its-own-content", fa == "fa" && ea == "" && fb == "fb" && eb == "eb")
 }
